@@ -41,6 +41,10 @@ impl<I: RecvmsgSyscall> RecvmsgSyscall for NioRecvmsgSyscall<I> {
         msg: *mut msghdr,
         flags: c_int,
     ) -> ssize_t {
+        if !crate::syscall::is_socket(fd) {
+            // not a socket, or not open at all: the kernel says so
+            return self.inner.recvmsg(fn_ptr, fd, msg, flags);
+        }
         let blocking = is_blocking(fd);
         if blocking {
             set_non_blocking(fd);
